@@ -664,6 +664,17 @@ func (g *docGen) mutateBytes(s string) string {
 
 // ---- wrappers (C19) ----
 
+// isRuleFieldSibling: the sibling key belongs to the rule-field vocabulary (for, keep_firing_for, labels, annotations) but
+// does not make the mapping a rule (no alert/record/expr): parseRule must still answer "empty" for the wrapper mapping.
+func isRuleFieldSibling(s string) bool {
+	for _, k := range []string{"for:", "keep_firing_for:", "labels:", "annotations:"} {
+		if strings.HasPrefix(s, k) {
+			return true
+		}
+	}
+	return false
+}
+
 type wrapped struct {
 	Text      string
 	LineShift int
@@ -688,14 +699,20 @@ func (g *docGen) wrap(list []string, levels int) wrapped {
 			key := pick(g.r, []string{"spec", "data", "foo", "rules", "alerts", "items", "x-y", "prometheus_rules"})
 			var pre, post []string
 			if g.chance(0.4) {
-				pre = append(pre, pick(g.r, []string{"kind: List", "version: 1", "meta:\n  a: b", "tags: [a, b]"}))
+				// sibling keys, incl. keys from the rule-field vocabulary that do not make the mapping a rule by themselves
+				pre = append(pre, pick(g.r, []string{"kind: List", "version: 1", "meta:\n  a: b", "tags: [a, b]", "for: 5m", "labels:\n  team: a", "annotations:\n  summary: x"}))
 			}
 			if g.chance(0.4) {
-				post = append(post, pick(g.r, []string{"other: value", "zzz:\n  - 1\n  - 2", "empty: {}"}))
+				post = append(post, pick(g.r, []string{"other: value", "zzz:\n  - 1\n  - 2", "empty: {}", "keep_firing_for: 1m", "name: wrapper"}))
 			}
 			var nb []string
 			for _, p := range pre {
 				nb = append(nb, strings.Split(p, "\n")...)
+			}
+			for _, p := range append(append([]string{}, pre...), post...) {
+				if isRuleFieldSibling(p) {
+					g.note("wrapper:sibling-rule-field")
+				}
 			}
 			nb = append(nb, key+":")
 			lineShift += len(nb)
@@ -728,7 +745,11 @@ func (g *docGen) wrap(list []string, levels int) wrapped {
 			nb = append(nb, indentLines(body, 4)...)
 			col += 4
 			if g.chance(0.3) {
-				nb = append(nb, "  sibling: 1")
+				sib := pick(g.r, []string{"sibling: 1", "for: 5m", "keep_firing_for: 2m", "annotations: {a: b}", "labels: {a: b}", "name: x"})
+				if isRuleFieldSibling(sib) {
+					g.note("wrapper:sibling-rule-field")
+				}
+				nb = append(nb, "  "+sib)
 			}
 			body = nb
 			desc = append(desc, "seqmap:"+key)
